@@ -459,6 +459,264 @@ Proof.
   destruct (exit_ s') eqn:EX.
   - cbn [fst]. apply (inva_shell_thr s s' w WExit old); auto.
   - destruct (queue s') as [|c0 r] eqn:QQ.
-    + cbn [fst]. apply (inva_shell_thr s s' w WSleep old); auto.
+    + cbn [fst]. apply (inva_shell_thr s s' w WSleep old); auto; congruence.
+    + assert (I' : InvA s').
+      { destruct I as [I1 I2]. constructor.
+        - intros c. unfold tot, G. rewrite Ec, Et, QQ. specialize (I1 c). unfold tot, G in I1. rewrite <- Eq in I1. exact I1.
+        - intros c. unfold G. rewrite Ec. apply I2. }
+      apply (inva_run_job s' w c0 r old); auto. unfold T. rewrite Et. exact H.
+Qed.
+
+Theorem inva_step s i : InvA s -> enabled s i = true -> InvA (step s i).
+Proof.
+  intros I EN. unfold step, tstep. unfold enabled in EN.
+  destruct (nth_error (thrs s) i) as [p|] eqn:H; [|discriminate].
+  assert (Z0 : forall c, qof c (next_client i []) = 0) by (intros; unfold next_client; destruct (Nat.eqb i 0); reflexivity).
+  destruct p as [prog| | | | | |l k| | |l q a].
+  - destruct prog as [|[l k b|] r].
+    + cbn [fst]. apply (inva_with_thr s i _ (CAt [])); auto.
+    + pose proof (inva_enqueue s i l k b (next_client i r) (CAt (OSub l k b :: r)) I H) as E.
+      destruct (enqueue s i l k b) as [s1 e]. cbn [fst] in *. apply E; [reflexivity|].
+      intros c. unfold next_client. destruct r; [destruct (Nat.eqb i 0)|]; reflexivity.
+    + pose proof (inva_stop_mark s i (AClient r) _ I H) as E.
+      destruct (stop_mark s i (AClient r)) as [s1 e]. cbn [fst] in *. apply E. reflexivity.
+  - cbn [fst]. apply (inva_with_thr s i _ CXWait); auto.
+  - pose proof (inva_stop_mark s i ADtor _ I H) as E.
+    destruct (stop_mark s i ADtor) as [s1 e]. cbn [fst] in *. apply E. reflexivity.
+  - discriminate.
+  - pose proof (inva_worker_cs s s i WIdle I H) as E.
+    destruct (worker_cs s i) as [s1 e]. cbn [fst] in *. apply E; reflexivity.
+  - pose proof (inva_worker_cs s (with_tokens s (pred (tokens s))) i WSleep I H) as E.
+    destruct (worker_cs (with_tokens s (pred (tokens s))) i) as [s1 e]. cbn [fst] in *. apply E; reflexivity.
+  - pose proof (inva_enqueue s i l k BNone WIdle (WSub l k) I H) as E.
+    destruct (enqueue s i l k BNone) as [s1 e]. cbn [fst] in *. apply E; reflexivity.
+  - pose proof (inva_stop_mark s i (AWorker false) _ I H) as E.
+    destruct (stop_mark s i (AWorker false)) as [s1 e]. cbn [fst] in *. apply E. reflexivity.
+  - discriminate.
+  - assert (SE : InvA (fst (stop_end s i q a))).
+    { apply (inva_stop_end s i q a (Join l q a)); [exact H| |exact (a_canc s I)].
+      intros c. rewrite (a_tot s I c). cbn [qof]. lia. }
+    destruct l as [|w0 [|w1 l]].
+    + destruct (stop_end s i q a) as [s1 e]. exact SE.
+    + destruct (stop_end s i q a) as [s1 e]. exact SE.
+    + cbn [fst]. apply (inva_with_thr s i _ (Join (w0 :: w1 :: l) q a)); auto.
+Qed.
+
+Theorem inva_reachable ops s : reachable ops s -> InvA s.
+Proof. induction 1; [apply inva_init|apply inva_step; assumption]. Qed.
+
+(* ---------- what a step does to everything except the closure counters ---------- *)
+Definition pc_after (t : nat) (a : after) : pc :=
+  match a with AClient prog => next_client t prog | ADtor => CDone | AWorker true => WExit | AWorker false => WIdle end.
+Definition job_pc (b : body) : pc := match b with BNone => WIdle | BSub k l => WSub l k | BStop => WStop end.
+
+Lemma stop_end_shell s t q a : forall s', s' = fst (stop_end s t q a) ->
+  queue s' = (match a with ADtor => [] | _ => queue s end) /\ exit_ s' = exit_ s /\ threads s' = threads s /\
+  tokens s' = tokens s /\ destroyed s' = (match a with ADtor => true | _ => destroyed s end) /\
+  nclients s' = nclients s /\ thrs s' = set_nth (thrs s) t (pc_after t a) /\
+  (forall c, G cb BNone s' c = G cb BNone s c) /\ (forall c, G cran 0 s' c = G cran 0 s c) /\
+  (forall c, G cran_on 0 s' c = G cran_on 0 s c).
+Proof.
+  intros s' ->. unfold stop_end. pose proof (drop_all_rel t s q) as D.
+  destruct (drop_all t s q) as [s1 e]. cbn [fst] in D.
+  destruct D as [h r o w b d cc]. destruct h as (hq & he & ht & hk & hd & hn & hth & hl).
+  assert (SIMPLE : forall p, queue (with_thr s1 t p) = queue s /\ exit_ (with_thr s1 t p) = exit_ s /\
+     threads (with_thr s1 t p) = threads s /\ tokens (with_thr s1 t p) = tokens s /\
+     destroyed (with_thr s1 t p) = destroyed s /\ nclients (with_thr s1 t p) = nclients s /\
+     thrs (with_thr s1 t p) = set_nth (thrs s) t p /\
+     (forall c, G cb BNone (with_thr s1 t p) c = G cb BNone s c) /\
+     (forall c, G cran 0 (with_thr s1 t p) c = G cran 0 s c) /\
+     (forall c, G cran_on 0 (with_thr s1 t p) c = G cran_on 0 s c)).
+  { intros p. unfold with_thr. cbn [queue exit_ threads tokens destroyed nclients thrs]. rewrite hth.
+    repeat split; auto. }
+  destruct a as [prog| |[|]].
+  - cbn [fst pc_after]. apply SIMPLE.
+  - pose proof (drop_all_rel t s1 (queue s1)) as D2.
+    destruct (drop_all t s1 (queue s1)) as [s2 e2]. cbn [fst] in D2.
+    destruct D2 as [h2 r2 o2 w2 b2 d2 cc2]. destruct h2 as (hq2 & he2 & ht2 & hk2 & hd2 & hn2 & hth2 & hl2).
+    cbn [fst pc_after]. unfold with_thr. cbn [queue exit_ threads tokens destroyed nclients thrs].
+    rewrite hth2, hth. repeat split; try congruence.
+    + intros c. unfold G at 1. cbn [clos]. fold (G cb BNone s2 c). rewrite b2. apply b.
+    + intros c. unfold G at 1. cbn [clos]. fold (G cran 0 s2 c). rewrite r2. apply r.
+    + intros c. unfold G at 1. cbn [clos]. fold (G cran_on 0 s2 c). rewrite o2. apply o.
+  - cbn [fst pc_after]. apply SIMPLE.
+  - cbn [fst pc_after]. apply SIMPLE.
+Qed.
+
+Lemma enqueue_shell s t l k b : forall s', s' = fst (enqueue s t l k b) ->
+  queue s' = (if exit_ s then queue s else queue s ++ [length (clos s)]) /\ exit_ s' = exit_ s /\ threads s' = threads s /\
+  tokens s' = (if exit_ s then tokens s else if Nat.ltb (tokens s) (sleepers s) then S (tokens s) else tokens s) /\
+  destroyed s' = destroyed s /\ nclients s' = nclients s /\ thrs s' = thrs s /\
+  (forall c, G cb BNone s' c = if Nat.eqb c (length (clos s)) then b else G cb BNone s c) /\
+  (forall c, G cran 0 s' c = if Nat.eqb c (length (clos s)) then 0 else G cran 0 s c) /\
+  (forall c, G cran_on 0 s' c = if Nat.eqb c (length (clos s)) then 0 else G cran_on 0 s c).
+Proof.
+  intros s' ->. unfold enqueue.
+  set (s1 := with_clos s (clos s ++ [mkClo l k b 0 0 0 0])).
+  destruct (exit_ s) eqn:EX.
+  - pose proof (drop1_rel t s1 [] (length (clos s))) as D.
+    destruct D as [h r o w bb d cc]. destruct h as (hq & he & ht & hk & hd & hn & hth & hl).
+    rewrite hq, he, ht, hk, hd, hn, hth. unfold s1 at 1 2 3 4 5 6 7. cbn [with_clos queue exit_ threads tokens destroyed nclients thrs].
+    repeat split; auto; intros c; [rewrite bb|rewrite r|rewrite o]; unfold s1; rewrite G_app; reflexivity.
+  - cbn [fst]. unfold with_tokens, with_queue. cbn [queue exit_ threads tokens destroyed nclients thrs].
+    repeat split; auto; intros c; unfold G at 1; cbn [clos];
+      [fold (G cb BNone s1 c)|fold (G cran 0 s1 c)|fold (G cran_on 0 s1 c)]; unfold s1; rewrite G_app; reflexivity.
+Qed.
+
+Definition is_client (p : pc) : bool :=
+  match p with
+  | CAt _ | CXWait | CDtor | CDone => true
+  | Join _ _ (AClient _) | Join _ _ ADtor => true
+  | _ => false
+  end.
+
+Record InvB (s : st) : Prop := {
+  b_exit : exit_ s = true -> queue s = [] /\ threads s = [];
+  b_destr : destroyed s = true -> exit_ s = true;
+  b_ncl : 0 < nclients s <= length (thrs s);
+  b_class : forall i p, T s i = Some p -> (is_client p = true <-> i < nclients s);
+  b_done0 : T s 0 = Some CDone -> destroyed s = true;
+  b_ran : forall c, 1 <= G cran 0 s c -> nclients s <= G cran_on 0 s c < length (thrs s);
+  b_join : forall i l q a, T s i = Some (Join l q a) -> exit_ s = true
+}.
+
+Lemma invb_frame s s' i p old : InvB s -> T s i = Some old ->
+  thrs s' = set_nth (thrs s) i p -> nclients s' = nclients s -> is_client p = is_client old ->
+  (exit_ s' = true -> queue s' = [] /\ threads s' = []) ->
+  (destroyed s' = true -> exit_ s' = true) ->
+  (i = 0 -> p = CDone -> destroyed s' = true) -> (destroyed s = true -> destroyed s' = true) ->
+  (forall c, 1 <= G cran 0 s' c -> nclients s <= G cran_on 0 s' c < length (thrs s)) ->
+  (exit_ s = true -> exit_ s' = true) -> (forall l q a, p = Join l q a -> exit_ s' = true) ->
+  InvB s'.
+Proof.
+  intros [B1 B2 B3 B4 B5 B6 B7] H Et En Ec X1 X2 X3 X4 X5 X6 X7.
+  pose proof (T_lt s i old H) as L.
+  assert (TT : forall j, T s' j = if Nat.eqb i j then Some p else T s j).
+  { intros j. unfold T. rewrite Et. destruct (Nat.eqb_spec i j) as [E|E].
+    - subst. apply nth_error_set_nth_same. exact L.
+    - apply nth_error_set_nth_other. exact E. }
+  constructor; auto.
+  - rewrite En, Et, set_nth_length. exact B3.
+  - intros j pj. rewrite TT, En. destruct (Nat.eqb_spec i j) as [E|E].
+    + intros Q. inversion Q; subst. rewrite Ec. apply B4. exact H.
+    + apply B4.
+  - rewrite TT. destruct (Nat.eqb_spec i 0) as [E|E].
+    + intros Q. inversion Q. apply X3; auto.
+    + intros Q. apply X4, B5, Q.
+  - intros c Hc. rewrite En, Et, set_nth_length. apply X5, Hc.
+  - intros j l q a. rewrite TT. destruct (Nat.eqb_spec i j) as [E|E].
+    + intros Q. inversion Q. eapply X7; eauto.
+    + intros Q. eapply X6, B7, Q.
+Qed.
+
+Lemma next_client_client i r : is_client (next_client i r) = true.
+Proof. unfold next_client. destruct r; [destruct (Nat.eqb i 0)|]; reflexivity. Qed.
+Lemma next_client_notdone0 r : next_client 0 r <> CDone.
+Proof. unfold next_client. destruct r; cbn; discriminate. Qed.
+
+Lemma invb_stop_mark s i a old : InvB s -> T s i = Some old ->
+  is_client old = match a with AWorker _ => false | _ => true end ->
+  InvB (fst (stop_mark s i a)).
+Proof.
+  intros B H Ec. unfold stop_mark.
+  set (s1 := mkSt [] true [] (sleepers s) (destroyed s) (nclients s) (clos s) (thrs s)).
+  set (a' := match a with AWorker _ => AWorker (existsb (Nat.eqb i) (threads s)) | _ => a end).
+  assert (Ec' : is_client (pc_after i a') = is_client old).
+  { rewrite Ec. unfold a'. destruct a as [r| |d]; cbn [pc_after]; [apply next_client_client|reflexivity|].
+    destruct (existsb (Nat.eqb i) (threads s)); reflexivity. }
+  destruct (filter (fun w => negb (Nat.eqb w i)) (threads s)) as [|w l] eqn:F.
+  - pose proof (stop_end_shell s1 i (queue s) a' _ eq_refl) as (hq & he & ht & hk & hd & hn & hth & hb & hr & ho).
+    apply (invb_frame s _ i (pc_after i a') old B H).
+    + exact hth.
+    + exact hn.
+    + exact Ec'.
+    + intros _. rewrite hq, ht. unfold s1. cbn [queue threads]. destruct a'; auto.
+    + intros _. rewrite he. reflexivity.
+    + intros -> Q. rewrite hd. unfold a' in *. destruct a as [r| |d]; cbn [pc_after] in Q.
+      * exfalso. eapply next_client_notdone0, Q.
+      * reflexivity.
+      * destruct (existsb (Nat.eqb 0) (threads s)); discriminate.
+    + intros D. rewrite hd. destruct a'; auto.
+    + intros c. rewrite hr, ho. apply (b_ran s B).
+    + intros _. rewrite he. reflexivity.
+    + intros. rewrite he. reflexivity.
+  - cbn [fst]. apply (invb_frame s _ i (Join (w :: l) (queue s) a') old B H).
+    + reflexivity.
+    + reflexivity.
+    + rewrite Ec. unfold a'. destruct a; reflexivity.
+    + intros _. split; reflexivity.
+    + reflexivity.
+    + intros; discriminate.
+    + auto.
+    + apply (b_ran s B).
+    + reflexivity.
+    + reflexivity.
+Qed.
+
+Lemma invb_enqueue s i l k b p old : InvB s -> T s i = Some old -> is_client p = is_client old ->
+  (i = 0 -> p <> CDone) -> (forall l q a, p <> Join l q a) ->
+  InvB (with_thr (fst (enqueue s i l k b)) i p).
+Proof.
+  intros B H Ec N0 NJ.
+  pose proof (enqueue_shell s i l k b _ eq_refl) as (hq & he & ht & hk & hd & hn & hth & hb & hr & ho).
+  apply (invb_frame s _ i p old B H); unfold with_thr; cbn [queue exit_ threads tokens destroyed nclients thrs].
+  - rewrite hth. reflexivity.
+  - exact hn.
+  - exact Ec.
+  - rewrite he, hq, ht. intros X. rewrite X. apply (b_exit s B X).
+  - rewrite he, hd. apply (b_destr s B).
+  - intros E Q. exfalso. apply (N0 E Q).
+  - rewrite hd. auto.
+  - intros c. unfold G. cbn [clos]. fold (G cran 0 (fst (enqueue s i l k b)) c) (G cran_on 0 (fst (enqueue s i l k b)) c).
+    rewrite hr, ho. destruct (Nat.eqb c (length (clos s))); [lia|apply (b_ran s B)].
+  - rewrite he. auto.
+  - intros l0 q0 a0 Q. exfalso. eapply NJ, Q.
+Qed.
+
+Lemma invb_worker_cs s s' w old : InvB s -> T s w = Some old -> is_client old = false ->
+  clos s' = clos s -> queue s' = queue s -> thrs s' = thrs s -> exit_ s' = exit_ s -> threads s' = threads s ->
+  destroyed s' = destroyed s -> nclients s' = nclients s ->
+  InvB (fst (worker_cs s' w)).
+Proof.
+  intros B H Ec Ecl Eq Et Ee Eth Ed En.
+  assert (WN : nclients s <= w < length (thrs s)).
+  { pose proof (T_lt s w old H). pose proof (b_class s B w old H) as [X Y].
+    split; [|assumption]. destruct (Nat.ltb_spec w (nclients s)); [|assumption]. rewrite (Y H1) in Ec. discriminate. }
+  assert (NZ : w = 0 -> False) by (pose proof (b_ncl s B); lia).
+  assert (GEN : forall p s2, is_client p = false -> (forall l q a, p <> Join l q a) ->
+            thrs s2 = thrs s' -> nclients s2 = nclients s' -> queue s2 = [] \/ exit_ s' = false -> threads s2 = threads s' ->
+            exit_ s2 = exit_ s' -> destroyed s2 = destroyed s' ->
+            (forall c, 1 <= G cran 0 s2 c -> nclients s <= G cran_on 0 s2 c < length (thrs s)) ->
+            InvB (with_thr s2 w p)).
+  { intros p s2 Pc NJ E1 E2 E3 E4 E5 E6 E7.
+    apply (invb_frame s _ w p old B H); unfold with_thr; cbn [queue exit_ threads tokens destroyed nclients thrs].
+    - rewrite E1, Et. reflexivity.
+    - congruence.
+    - congruence.
+    - rewrite E5, E4, Eth. intros X. destruct E3 as [E3|E3]; [|congruence]. split; [exact E3|].
+      apply (b_exit s B). congruence.
+    - rewrite E6, E5, Ed, Ee. apply (b_destr s B).
+    - intros E. exfalso. auto.
+    - rewrite E6, Ed. auto.
+    - intros c. unfold G. cbn [clos]. apply E7.
+    - rewrite E5, Ee. auto.
+    - intros l q a Q. exfalso. eapply NJ, Q. }
+  assert (RAN : forall c, 1 <= G cran 0 s' c -> nclients s <= G cran_on 0 s' c < length (thrs s)).
+  { intros c. unfold G. rewrite Ecl. apply (b_ran s B). }
+  unfold worker_cs. destruct (exit_ s') eqn:EX.
+  - cbn [fst]. apply GEN; auto; try discriminate.
+    left. rewrite Eq. apply (b_exit s B). congruence.
+  - destruct (queue s') as [|c0 r] eqn:QQ.
+    + cbn [fst]. apply GEN; auto; discriminate.
+    + unfold run_job. replace (clos (with_queue s' r)) with (clos s') by reflexivity.
+      destruct (nth_error (clos s') c0) as [x|] eqn:E.
+      * cbn [fst].
+        apply (GEN (job_pc (cb x)) (with_clos (with_queue s' r) (set_nth (clos s') c0
+                 (mkClo (clbl x) (ck x) (cb x) (S (cran x)) w (cdrop x) (ccanc x))))); auto.
+        -- destruct (cb x); reflexivity.
+        -- destruct (cb x); discriminate.
+        -- intros c. unfold G at 1 2. cbn [clos].
+           assert (L : c0 < length (clos s')) by (apply nth_error_Some; congruence).
+           destruct (Nat.eqb_spec c0 c) as [Q|Q].
 Show.
 Abort.
